@@ -128,19 +128,29 @@ theorem wrapTail {n v : Nat} (hn : 2 ≤ n) (hv : v < 2 ^ (n - 1)) (negative : B
     · simpa using Nat.mod_eq_of_lt hv
     · simp [Nat.mod_eq_of_lt hv]
 
-/-- what the Wrapping `operator/=` computes on numeric operands: the SUM of the exponent fields (defect D9) -/
+/-- what the Wrapping `operator/=` computes on numeric operands: the exponent fields subtracted modulo 2^(nbits-1)
+    (`lexp -= rexp`, i.e. `lexp += twosComplement(rexp)`) -/
 theorem div_wrap_numeric (c : Cfg) (hn : 2 ≤ c.nbits) (hw : 1 ≤ c.w) (hs : c.wrap = true) (a b : Nat)
     (ha : a < 2 ^ c.nbits) (hb : b < 2 ^ c.nbits)
     (h1 : a ≠ 2 ^ (c.nbits - 1) + 2 ^ (c.nbits - 2)) (h2 : b ≠ 2 ^ (c.nbits - 1) + 2 ^ (c.nbits - 2))
     (h3 : a ≠ 2 ^ (c.nbits - 2)) (h4 : b ≠ 2 ^ (c.nbits - 2)) :
     div c a b < 2 ^ c.nbits ∧
     (div c a b).testBit (c.nbits - 1) = (a.testBit (c.nbits - 1) != b.testBit (c.nbits - 1)) ∧
-    div c a b % 2 ^ (c.nbits - 1) = (a % 2 ^ (c.nbits - 1) + b % 2 ^ (c.nbits - 1)) % 2 ^ (c.nbits - 1) := by
+    div c a b % 2 ^ (c.nbits - 1) =
+      (a % 2 ^ (c.nbits - 1) + twosComp (c.nbits - 1) (b % 2 ^ (c.nbits - 1))) % 2 ^ (c.nbits - 1) := by
   unfold div
   simp only [isNaN_eq hn hw ha, isNaN_eq hn hw hb, isZero_eq hn hw ha, isZero_eq hn hw hb, sign_eq hw, hs,
     h1, h2, h3, h4, decide_false, Bool.false_eq_true, if_false, Bool.not_true]
   rw [assign_narrow (show ¬ c.nbits - 1 > c.nbits by omega), assign_narrow (show ¬ c.nbits - 1 > c.nbits by omega)]
   exact wrapTail hn (Nat.mod_lt _ (Nat.two_pow_pos _)) _
+
+/-- adding the two's complement is subtracting, modulo 2^N -/
+theorem add_twosComp_mod {N x y : Nat} (hy : y < 2 ^ N) :
+    (x + twosComp N y) % 2 ^ N = (x + (2 ^ N - y)) % 2 ^ N := by
+  rw [twosComp_eq hy]
+  split
+  · rename_i h0; subst h0; simp
+  · rfl
 
 theorem toSigned_inj {N x y : Nat} (hN : 1 ≤ N) (hx : x < 2 ^ N) (hy : y < 2 ^ N) :
     toSigned N x = toSigned N y ↔ x = y := by
